@@ -47,12 +47,12 @@ Proof.
   apply ok_rule. exact Pok.
 Qed.
 
-Theorem T_not_both o s : sreach o s -> venv s = false -> vgap s = false ->
+Theorem T_not_both o s : sreach o s -> venv s = false ->
   mem HkResponse (hooks s) && mem HkError (hooks s) = false
   /\ (forall pre post, hooks s = pre ++ HkError :: post -> mem HkError pre = false).
 Proof.
-  intros R Hv Hg. destruct (sreach_good o s R) as [I H]. destruct (Inv_facts s I) as (_ & Pb & _).
-  unfold P_both in Pb. simpl in Pb. rewrite Hv, Hg in Pb. simpl in Pb. rewrite H in Pb.
+  intros R Hv. destruct (sreach_good o s R) as [I H]. destruct (Inv_facts s I) as (_ & Pb & _).
+  unfold P_both in Pb. simpl in Pb. rewrite Hv in Pb. simpl in Pb. rewrite H in Pb.
   apply andb_prop in Pb. destruct Pb as [B1 B2].
   pose proof (bits_mem (hooks s)) as (_ & _ & _ & D & E & _).
   split.
@@ -69,20 +69,21 @@ Proof.
 Qed.
 
 Theorem T_outcome o s : sreach o s ->
-  pc s = None -> tunnel s = false -> crashed s = false -> venv s = false -> vgap s = false ->
+  pc s = None -> tunnel s = false -> crashed s = false -> venv s = false ->
   mem HkReqHeaders (hooks s) = true -> closed_s s = true ->
   xorb (mem HkResponse (hooks s)) (mem HkError (hooks s)) = true /\ live s = false.
 Proof.
-  intros R Hpc Ht Hc Hv Hg Hq Hcl. destruct (sreach_good o s R) as [I H]. destruct (Inv_facts s I) as (_ & _ & _ & Po).
+  intros R Hpc Ht Hc Hv Hq Hcl. destruct (sreach_good o s R) as [I H]. destruct (Inv_facts s I) as (_ & _ & _ & Po).
   pose proof (bits_mem (hooks s)) as (A & _ & _ & D & E & _).
   unfold P_out, HttpStreamInv.closed_ok in Po. unfold closed_s in Hcl.
   replace (is_pnone (x_pc (abs s))) with true in Po by (destruct s; simpl in *; subst; reflexivity).
-  simpl in Po. rewrite Ht, Hc, Hv, Hg, Hcl, H, A, Hq, D, E in Po. simpl in Po.
+  simpl in Po. rewrite Ht, Hc, Hv, Hcl, H, A, Hq, D, E in Po. simpl in Po.
   apply andb_prop in Po. destruct Po as [P1 P2]. split; [exact P1 | destruct (live s); [discriminate | reflexivity]].
 Qed.
 
-(* ---------- the gap: a concrete run of one stream, inside the modelled environment (venv stays false), in which
-   both the error hook and the response hook fire *)
+(* ---------- runs of one stream.  gap_run is the schedule that made the unrepaired code fire both the error and the
+   response hook (streamed request; while its request hook is pending the client disconnects and the server answers):
+   with check_killed after the hook it ends with the error outcome only *)
 Inductive sstep := SIn (i : sinput) | SAct (h : hook) (a : act).
 Definition run_stream (o : opts) (l : list sstep) : stream :=
   fold_left (fun s st => match st with SIn i => fst (stream_handle o s i) | SAct h a => apply_act h a s end) l (new_stream 1).
@@ -98,12 +99,11 @@ Definition gap_resp : head := mkHead [] MGet (HLen 0) 0 true true false false 20
 Definition gap_run : list sstep :=
   [SIn (IEvent (EReqHeaders gap_req false)); SAct HkReqHeaders AStream; SIn IHookDone; SIn (IConnDone (Some 1%N));
    SIn (IEvent (EReqData [x61])); SIn (IEvent EReqEOM);
-   (* while the request hook is pending: the client disconnects and the server answers *)
    SIn (IEvent (EReqErr None)); SIn (IEvent (ERespHeaders gap_resp true)); SIn (IEvent ERespEOM);
    SIn IHookDone; SIn IHookDone; SIn IHookDone; SIn IHookDone].
-Theorem T_both_refuted :
+Theorem T_gap_closed :
   let s := run_stream gap_opts gap_run in
-  venv s = false /\ mem HkResponse (hooks s) && mem HkError (hooks s) = true /\ vgap s = true.
+  venv s = false /\ hooks s = [HkReqHeaders; HkRequest; HkError] /\ live s = false.
 Proof. vm_compute. repeat split. Qed.
 
 (* ---------- every stream of the system model is a reachable stream *)
